@@ -2,7 +2,7 @@
 //! default 2 MiB stack and prints `count=<n>`. The exit status is the observation:
 //! 0 = returned normally, 101 = panic, signal = stack exhaustion / abort.
 //!
-//! usage: drain <flop: 3 card texts concatenated> <range-spec>...
+//! usage: drain <flop: 3 card texts concatenated> [scope:<tf>,<rf>,<tt>,<rt>] <range-spec>...
 //!   range-spec:  empty | text:<range notation> | first:<N> | firstnot:<card>:<N> | list:<AsKs,AsQd,...>
 //! This crate is built with the stock dev and release profiles and nothing else.
 
@@ -63,12 +63,22 @@ fn main() {
         None,
         None,
     ];
-    let players: Vec<HandRange> = args[2..].iter().map(|s| range_of(s)).collect();
+    let mut rest = &args[2..];
+    let mut scope: Option<(u8, u8, u8, u8)> = None;
+    if let Some(sc) = rest.first().and_then(|a| a.strip_prefix("scope:")) {
+        let v: Vec<u8> = sc.split(',').map(|x| x.parse().unwrap()).collect();
+        scope = Some((v[0], v[1], v[2], v[3]));
+        rest = &rest[1..];
+    }
+    let players: Vec<HandRange> = rest.iter().map(|s| range_of(s)).collect();
     // the property names the default 2 MiB thread stack
     let h = std::thread::Builder::new()
         .stack_size(2 * 1024 * 1024)
         .spawn(move || {
-            let evaluator = FlopExhaustiveEvaluator::new(&board, &players);
+            let mut evaluator = FlopExhaustiveEvaluator::new(&board, &players);
+            if let Some((a, b, c, d)) = scope {
+                evaluator.scope(a, b, c, d);
+            }
             let mut n: u64 = 0;
             for _showdown in evaluator {
                 n += 1;
